@@ -79,7 +79,15 @@ func (g c18cfg) yaml() string {
 	if len(g.Watchers) > 0 {
 		ws := gen.OM{}
 		for _, w := range sortedKeys(g.Watchers) {
-			ws.Set(w, gen.OM{{K: "watch", V: []interface{}{"*.none"}}, {K: "task", V: g.Watchers[w]}})
+			switch {
+			case strings.HasPrefix(w, "nopat"):
+				// a watcher without patterns watches nothing; what it refers to is checked all the same
+				ws.Set(w, gen.OM{{K: "events", V: []interface{}{"write"}}, {K: "task", V: g.Watchers[w]}})
+			case strings.HasPrefix(w, "emptypat"):
+				ws.Set(w, gen.OM{{K: "watch", V: []interface{}{}}, {K: "exclude", V: []interface{}{"*.tmp"}}, {K: "task", V: g.Watchers[w]}})
+			default:
+				ws.Set(w, gen.OM{{K: "watch", V: []interface{}{"*.none"}}, {K: "task", V: g.Watchers[w]}})
+			}
 		}
 		cfg.Set("watchers", ws)
 	}
@@ -134,6 +142,10 @@ func genC18(r *h.Rand) c18cfg {
 	r.Shuffle(g.Order) // declaration order of pipelines is arbitrary (links may point forward)
 	for i := 0; i < r.Intn(3); i++ {
 		g.Watchers[fmt.Sprintf("w%d", i)] = g.Tasks[r.Intn(len(g.Tasks))]
+	}
+	if r.Chance(25) {
+		// a watcher without patterns that names an existing task is well-formed
+		g.Watchers[[]string{"nopat9", "emptypat9"}[r.Intn(2)]] = g.Tasks[0]
 	}
 	return g
 }
@@ -228,6 +240,11 @@ func c18mutants(g c18cfg) []c18mut {
 		}
 		m.Watchers["extra2"] = "ghost-task"
 		ms = append(ms, c18mut{"watcher-task", m, "extra2.task among five more watchers"})
+	}
+	for _, shape := range []string{"nopat", "emptypat"} {
+		m := g.clone()
+		m.Watchers[shape+"0"] = "ghost-task"
+		ms = append(ms, c18mut{"watcher-task", m, shape + "0.task (a watcher without patterns)"})
 	}
 	{
 		// no task is defined at all (the tasks live in a file that was not imported): every task reference dangles
@@ -333,7 +350,7 @@ func c18mutants(g c18cfg) []c18mut {
 }
 
 func c18(c *h.Ctx) {
-	c.Rule = "generated well-formed configurations (2..5 tasks, 1..3 pipelines of 2..5 stages, nested pipelines, 0..2 watchers, pipelines declared in arbitrary order); mutants with exactly one broken reference of each kind (stage->task, stage->pipeline, depends_on->missing stage / stage of another pipeline, watcher->task, duplicate stage name, inclusion cycle of length 1..3) at every position, and the repaired twin (the original). Oracle: the twin is accepted by `list` and `validate`, every mutant is rejected by both; every pipeline of every accepted configuration is run and must end with exit 0/1 within 15 s without dying inside the scheduler. non-trivial = distinct mutant / twin files"
+	c.Rule = "generated well-formed configurations (2..5 tasks, 1..3 pipelines of 2..5 stages, nested pipelines, 0..2 watchers, pipelines declared in arbitrary order); mutants with exactly one broken reference of each kind (stage->task, stage->pipeline, depends_on->missing stage / stage of another pipeline, watcher->task incl. watchers without patterns, duplicate stage name, inclusion cycle of length 1..3) at every position, and the repaired twin (the original). Oracle: the twin is accepted by `list` and `validate`, every mutant is rejected by both; every pipeline of every accepted configuration is run and must end with exit 0/1 within 15 s without dying inside the scheduler. non-trivial = distinct mutant / twin files"
 	c.Assumptions = []string{"`validate` accepts iff it prints `file is valid`", "bounded progress (15 s, re-confirmed) stands in for 'never hangs'"}
 	n := c.N(25, 500)
 	type job struct {
